@@ -83,6 +83,20 @@ Definition jump_j_prefix (d : nat) (cs : list cmat) : cmat :=
   mscale (zof (copp F half) : Cx) (msum (map (fun c => j_part d c) cs)).
 Definition jump_d_prefix (d : nat) (cs : list cmat) : cmat := madd (jump_j_prefix d cs) (jump_k d cs).
 
+(* the (H, K) form of a jump-operator generator.  A jump operator is given by a decomposition  c = a I + sum_{b < d*d-1} g_b B_{b+1}
+   (for an orthonormal basis with B_0 = I/sd:  a = tr c / d,  g_b = <B_{b+1}, c>);  then
+     sum_c D[c]  =  generator of  ( H_eff = sum_c (i/2)(conj a c' - a c'^dagger) ,  K = sum_c g g^dagger ) ,   c' = c - a I . *)
+Definition jump_tl (d : nat) (B : nat -> cmat) (g : nat -> Cx) : cmat := fun i j => sumn (d * d - 1) (fun b => g b *c B (S b) i j).
+Definition jump_op (d : nat) (B : nat -> cmat) (a : Cx) (g : nat -> Cx) : cmat := madd (jump_tl d B g) (mscale a mid).
+Definition jump_heff (a : Cx) (c' : cmat) : cmat := fun i j =>
+  ((c0 F, half) : Cx) *c (zconj a *c c' i j -c a *c zconj (c' j i)).
+Definition jump_K (g : nat -> Cx) : cmat := fun a b => g a *c zconj (g b).
+Definition jumps_ops (d : nat) (B : nat -> cmat) (l : list (Cx * (nat -> Cx))) : list cmat :=
+  map (fun p => jump_op d B (fst p) (snd p)) l.
+Definition jumps_H (d : nat) (B : nat -> cmat) (l : list (Cx * (nat -> Cx))) : cmat :=
+  msum (map (fun p => jump_heff (fst p) (jump_tl d B (snd p))) l).
+Definition jumps_K (l : list (Cx * (nat -> Cx))) : cmat := msum (map (fun p => jump_K (snd p)) l).
+
 (* ---------------------------------------------------------------- change of basis (gate.convert_hs) *)
 Definition Umat (d : nat) (B : nat -> cmat) : cmat := fun a s => zconj (vecr d (B a) s).
 (* comp basis -> B :  U L U^dagger  (complex; the code then truncates to the real part) *)
@@ -206,6 +220,15 @@ Fixpoint tterm (frz : rmat -> rmat) (n : nat) (L : rmat) (k : nat) : rmat :=
   match k with O => mid | S k' => frz (mscale (kdiv F (c1 F) (ofnat (S k'))) (mmul n L (tterm frz n L k'))) end.
 Definition texp (frz : rmat -> rmat) (n : nat) (L : rmat) (N : nat) : rmat := fun i j =>
   sumn (S N) (fun k => tterm frz n L k i j).
+(* the same in the computational basis (complex superoperators): powers and polynomials with REAL coefficients of L_cb *)
+Fixpoint cmpow (n : nat) (L : cmat) (k : nat) : cmat :=
+  match k with O => mid | S k' => mmul n L (cmpow n L k') end.
+Definition cpoly_sum (n : nat) (c : nat -> F) (L : cmat) (N : nat) : cmat := fun i j =>
+  sumn (S N) (fun k => zof (c k) *c cmpow n L k i j).
+(* properties of the MAP a comp-basis superoperator denotes: Hermiticity preserving, trace annihilating *)
+Definition hp_sup (d : nat) (M : cmat) : Prop :=
+  forall (X : cmat) i j, (i < d)%nat -> (j < d)%nat -> zconj (apply_cb d M X j i) = apply_cb d M (cadj X) i j.
+Definition ta_sup (d : nat) (M : cmat) : Prop := forall X : cmat, mtrace d (apply_cb d M X) = c0 Cx.
 End C18.
 
 Arguments ofnat {F} n. Arguments h_part {F} d H _ _. Arguments j_part {F} d J _ _. Arguments k_part {F} d B K _ _.
@@ -214,10 +237,13 @@ Arguments k_part_sparse {F} d B K _ _. Arguments j_of_k_sparse {F} d B K _ _.
 Arguments lcb_hjk {F} d B H J K _ _. Arguments lcb_hk {F} d B H K _ _. Arguments lcb_h {F} d H _ _. Arguments lcb_k {F} d B K _ _.
 Arguments msum {F} l _ _. Arguments jump_j {F} d cs _ _. Arguments jump_j_prefix {F} d cs _ _. Arguments jump_k {F} d cs _ _.
 Arguments jump_d {F} d cs _ _. Arguments jump_d_prefix {F} d cs _ _.
+Arguments jump_tl {F} d B g _ _. Arguments jump_op {F} d B a g _ _. Arguments jump_heff {F} a c' _ _. Arguments jump_K {F} g _ _.
+Arguments jumps_ops {F} d B l. Arguments jumps_H {F} d B l _ _. Arguments jumps_K {F} l _ _.
 Arguments Umat {F} d B _ _. Arguments chs_of_cb {F} d B L _ _. Arguments cb_of_chs {F} d B HS _ _. Arguments cb_of_hs {F} d B HS _ _.
 Arguments tr2 {F} d X Y. Arguments probe_m {F} d Ba _ _. Arguments probe_p {F} d Ba _ _.
 Arguments h_coef {F} d B L a. Arguments calc_h_mat {F} d B L _ _. Arguments j_coef {F} d B L a. Arguments calc_j_mat {F} d B L _ _.
 Arguments j_coef_prefix {F} d B L a. Arguments calc_j_mat_prefix {F} d B L _ _. Arguments calc_k_mat {F} d B L _ _.
 Arguments rebuild_cb {F} d B L _ _. Arguments rebuild_cb_prefix {F} d B L _ _. Arguments gksl {F} d B H K rho _ _. Arguments gksl_jump {F} d cs rho _ _.
 Arguments apply_cb {F} d L rho _ _. Arguments proj_eq {F} HS _ _. Arguments proj_ineq_cb {F} d B L K' _ _. Arguments herm_part {F} K _ _.
+Arguments cmpow {F} n L k _ _. Arguments cpoly_sum {F} n c L N _ _. Arguments hp_sup {F} d M. Arguments ta_sup {F} d M.
 Arguments mpow {F} n L k _ _. Arguments poly_sum {F} n c L N _ _. Arguments tterm {F} frz n L k _ _. Arguments texp {F} frz n L N _ _.
